@@ -324,6 +324,30 @@ at_comment() {
 }
 
 /**
+ * Returns true if the upcoming characters are "::" not followed by ':' or
+ * '>'.  Called right after a '<' has been read; the file pointer is not
+ * advanced.
+ */
+bool CPPPreprocessor::InputFile::
+at_scope_after_less() {
+  assert(_in != nullptr);
+
+  if (peek() != ':') {
+    return false;
+  }
+  std::streampos pos = _in->tellg();
+  if (pos == std::streampos(-1)) {
+    return false;
+  }
+  _in->get();
+  int c2 = _in->get();
+  int c3 = _in->peek();
+  _in->clear();
+  _in->seekg(pos);
+  return (c2 == ':' && c3 != ':' && c3 != '>');
+}
+
+/**
  * Like get(), but does not advance the file pointer.
  */
 int CPPPreprocessor::InputFile::
@@ -1423,7 +1447,16 @@ check_digraph(int c) {
   case '<':
     if (next_c == '<') return LSHIFT;
     if (next_c == '=') return LECOMPARE;
-    if (next_c == ':') return '[';
+    if (next_c == ':') {
+      // As per C++11 [lex.pptoken], "<::" that is not followed by ':' or '>'
+      // is the token '<' followed by "::", not the digraph "<:", so that
+      // A<::B> works.
+      if (_unget == '\0' && _infile != nullptr &&
+          _infile->at_scope_after_less()) {
+        break;
+      }
+      return '[';
+    }
     if (next_c == '%') return '{';
     break;
 
